@@ -48,6 +48,7 @@ NPROC = {'quick': int(os.environ.get('VERIF_QUICK_PROCS', '8')),
 CASE_WATCHDOG_S = 60
 SHARD_TIMEOUT_S = {'quick': 900, 'thorough': 4 * 3600}
 MAX_STORED_VIOLATIONS = 25
+ONLY = os.environ.get('VERIF_ONLY')   # debugging aid: run only the cases whose repr contains this text
 
 
 class Watchdog(Exception):
@@ -253,6 +254,8 @@ def run_shard(prop, tier, seed, shard, nshards, only_index=None):
             if i % nshards != shard:
                 continue
             if only_index is not None and i != only_index:
+                continue
+            if ONLY and ONLY not in repr(case):
                 continue
             out['evaluations'] += 1
             try:
